@@ -162,8 +162,11 @@ end
 theorem visitVarDefS (h : SCF c bad f g) (v : VarDef) (st : St) : PostS bad f g (varDefNodes v) st (visitVarDef c v st) := by
   rw [visitVarDef, varDefNodes]
   refine visitNodeS h _ _ _ (fun st => ?_) st rfl
-  have key : ∀ st', PostS bad f g [.typeNode v.type] st' (visitNode c (.typeNode v.type) id st') :=
+  have key0 : ∀ st', PostS bad f g [.typeNode v.type] st' (visitNode c (.typeNode v.type) id st') :=
     fun st' => visitNodeS h _ id [] (fun st => PostS.nil st) st' rfl
+  have key : ∀ st', PostS bad f g (.typeNode v.type :: dirsNodes v.dirs) st'
+      (visitDirectives c v.dirs (visitNode c (.typeNode v.type) id st')) :=
+    fun st' => (key0 st').append (visitDirectivesS h v.dirs _)
   cases hd : v.default with
   | none => simpa using key st
   | some d => simp only; exact (visitValueS h d st).append (key _)
